@@ -107,7 +107,7 @@ func c10Run(c *core.Ctx) {
 	} else {
 		scopes = []scope{{9, 3, []int64{ms, hour + ms}}, {6, 4, []int64{ms}}, {6, 3, []int64{ns, sec}}, {7, 4, []int64{ms}}, {4, 5, []int64{ms}}}
 	}
-	texts := []string{"x", "y"}
+	texts := []string{"x|1\n\n2", "y"} // first text: two runs on the first line, an empty line, a third line
 	for _, sc := range scopes {
 		a := cueAlphabet(sc.grid, texts, true)
 		for _, unit := range sc.units {
